@@ -39,6 +39,11 @@ def run(pid, tier, args):
                 star = {"op": "grp", "mode": "once", "kid": {"op": "grp", "mode": "star", "kid": lit("(")}}
                 body = {"op": "seq", "kids": [{"op": "cap", "f": "T", "fk": kind, "kid": opt}, {"op": "cap", "f": "U", "fk": kind if kind != "int8" else "strings", "kid": star}, lit("b")]}
                 gs.append(P.mk_grammar("z%d" % j, [("P0", body, [P.F("T", kind), P.F("U", kind if kind != "int8" else "strings")])], ks=(1, -1)))
+            # grammars that match EOF explicitly (trailing elided text before EOF must not upset the progress check)
+            for g0 in P.curated_core(rng, with_tokens=False):
+                if g0["id"] in ("e0", "e1"):
+                    g0 = dict(g0, id="x" + g0["id"], inputs=[], ks=[1, -1])
+                    gs.append(g0)
             extra = []
             maxlen = 3 if quick else 4
         gp = os.path.join(wd, "grammars.json")
